@@ -15,12 +15,12 @@ func specs() map[string]*spec {
 		Assumptions: []string{"ref/mtp IGE/KDF/temp-key implementation (self-tested against OpenSSL IGE vectors and the core.telegram.org temp-key sample)", "crypto/aes, crypto/sha1"},
 	})
 	add(&spec{ID: "C03", Level: "exploration",
-		WLs: []wlSpec{{Name: "c03", TimeoutS: 600}},
+		WLs: []wlSpec{{Name: "c03", TimeoutS: 600}, {Name: "c03e2e", Race: true, Shards: 8, TimeoutS: 900}},
 		Rule: "every body length 0..N plus sampled lengths up to 65536, x key shapes {random, zero, ff, leading zeros} x boundary salts/session ids/msg_ids x ack/no-ack: library seals -> reference server opens (x=0); reference server seals (x=8) -> library opens; unencrypted envelope both ways; distinct = distinct (direction, body length, key shape, ack)",
 		Assumptions: []string{"ref/mtp envelope + KDF (self-tested)", "crypto/aes, crypto/sha1"},
 	})
 	add(&spec{ID: "C04", Level: "fault_enumeration",
-		WLs: []wlSpec{{Name: "c04", TimeoutS: 900}},
+		WLs: []wlSpec{{Name: "c04", TimeoutS: 900}, {Name: "c04e2e", Race: true, Shards: 8, TimeoutS: 900}},
 		Rule: "per valid reference-sealed packet: every single-bit flip, every truncation length, 3 re-keyings, 16 block-aligned garbage bodies, both client parities, and (attacker holds the key) declared lengths {-2^31,-1,2^24,2^31-16,2^31-1, len-33..len+33, total-33..total+33} x 3 choices of what msg_key covers; unencrypted: every truncation, 6 bad lengths, parities; distinct = distinct (mutation class, position/offset)",
 		Assumptions: []string{"ref/mtp seals the packets and states what a key holder sealed", "a single-bit flip being accepted by chance has probability 2^-128 and is ignored"},
 	})
@@ -30,12 +30,12 @@ func specs() map[string]*spec {
 		Assumptions: []string{"ref/mtp framing", "kernel loopback TCP; the actual split seen by the reader on the TCP path is decided by the kernel (deterministic path covers all compositions)"},
 	})
 	add(&spec{ID: "C12", Level: "exploration",
-		WLs: []wlSpec{{Name: "c12", TimeoutS: 600}},
+		WLs: []wlSpec{{Name: "c12", TimeoutS: 600}, {Name: "c12e2e", Race: true, Shards: 4, TimeoutS: 600}},
 		Rule: "PRNG sessions (key 0..512 bytes, hash 0..20, boundary salts, hostnames with non-ASCII/JSON metacharacters) stored and loaded through same and fresh loaders over absolute/relative/dot-relative/bare paths; histories of 1-8 store/load ops over 1-3 loaders against a one-register model, each natively and with one-second mtime emulation; every strict prefix of stored files as crash points; distinct = distinct (path kind, key/hash length, salt, host) / (history, coarse) / (file, cut)",
 		Assumptions: []string{"local filesystem; os.Chtimes truncation to one second emulates coarse-mtime filesystems", "hostnames are valid UTF-8"},
 	})
 	add(&spec{ID: "C17", Level: "exploration",
-		WLs: []wlSpec{{Name: "c17", Shards: 8, TimeoutS: 300}},
+		WLs: []wlSpec{{Name: "c17", Shards: 8, TimeoutS: 300}, {Name: "c17e2e", Race: true, Shards: 8, TimeoutS: 900}},
 		Rule: "15 table rows x 23 parameter spellings + edge forms, every catalogued name (read from /repo/errors.go with go/parser at run time), PRNG texts with % verbs and overlapping prefixes, x codes; oracle zones strict/plain/don't-care (ref/rpcerr); distinct = distinct (zone, text)",
 		Assumptions: []string{"ref/rpcerr restates the 15-row table of the property", "the catalogue in errors.go is the documentation of descriptions"},
 	})
@@ -100,6 +100,11 @@ func specs() map[string]*spec {
 		WLs: []wlSpec{{Name: "c11", Race: true, TimeoutS: 1500}},
 		Rule: "scripted histories: k in 1..3 rotation steps, each with A requests accepted before the rotation and answered after it and R requests issued after it (rejected with bad_server_salt and re-sent), all (A,R) with A+R<=3 (quick) / <=5 (thorough), resumed and freshly keyed sessions, rotation by rejection or announced by new_session_created, late answers released before or after the rejected ones; plus PRNG histories; PRNG delays at salt.adopt/salt.notify/call.retry/...; the server rejects ANY message under a wrong salt (acknowledgements too); oracle: every call returns its own stamp, arrivals(uid) = 1 + rejections(uid) (an accepted request is never sent twice), the session store holds the rotated salt after each step, a probe completes, no stall (goroutine-dump signature); distinct = distinct (history, delay map)",
 		Assumptions: []string{"refserver", "stall verdict only from identical goroutine dumps with every client goroutine parked; otherwise inconclusive"},
+	})
+	add(&spec{ID: "C19", Level: "exploration",
+		WLs: []wlSpec{{Name: "c19", Race: true, Shards: 8, TimeoutS: 900}},
+		Rule: "runtime provenance (taint) monitor: crypto/rand.Reader is interposed in the child and every chunk served to a /repo caller is recorded with the caller's frames; sinks are observed outside the client (nonce on the wire, new_nonce after the server's RSA decryption, g_b on the wire, SRP A in the answer); oracle: nonce/new_nonce equal a served window, g_b and A are g^x for a candidate derivation x of a served chunk; plus differential pairs: identical math/rand seeding after client creation must not reproduce nonces or g_b; distinct = distinct exchanges / SRP answers / pairs. Reach is reported as draws per calling function; a path not executed is not judged",
+		Assumptions: []string{"the quantifier 'all paths' exceeds what a run can show: only the executed paths from CreateConnection / GetInputCheckPassword to each sink are judged (they are straight-line in this code base); see DESIGN 6/C19", "refserver decrypts new_nonce with the test RSA key"},
 	})
 	return m
 }
